@@ -499,6 +499,56 @@ func c12One(g wgen, kind string) (desc string, before, after string, err error) 
 		v := g.op()
 		var o ovsdb.Operation
 		err = rt(v, &o)
+		if err == nil {
+			// one operation, one encoding: held by value, by pointer, in a slice of operations
+			// or in the parameter list of a transact request
+			byValue, e1 := json.Marshal(v)
+			byPointer, e2 := json.Marshal(&v)
+			inSlice, e3 := json.Marshal([]ovsdb.Operation{v})
+			inArgs, e4 := json.Marshal(ovsdb.NewTransactArgs("db", v))
+			// (pairs of a map are encoded in no particular order: the members present and the
+			// decoded operations are compared, not the bytes)
+			members := func(b []byte) string {
+				var m map[string]json.RawMessage
+				if json.Unmarshal(b, &m) != nil {
+					return "<not an object>"
+				}
+				var l []string
+				for k := range m {
+					l = append(l, k)
+				}
+				sort.Strings(l)
+				return strings.Join(l, ",")
+			}
+			decoded := func(b []byte) string {
+				var x ovsdb.Operation
+				if json.Unmarshal(b, &x) != nil {
+					return "<undecodable>"
+				}
+				return opStr(x)
+			}
+			var sl, al []json.RawMessage
+			if e3 == nil {
+				e3 = json.Unmarshal(inSlice, &sl)
+			}
+			if e4 == nil {
+				e4 = json.Unmarshal(inArgs, &al)
+			}
+			switch {
+			case e1 != nil || e2 != nil || e3 != nil || e4 != nil || len(sl) != 1 || len(al) != 2:
+				err = fmt.Errorf("encode: %v %v %v %v", e1, e2, e3, e4)
+			default:
+				for _, alt := range []struct {
+					how string
+					b   []byte
+				}{{"by value", byValue}, {"in a slice of operations", sl[0]}, {"in the parameters of a transact request", al[1]}} {
+					if members(alt.b) != members(byPointer) || decoded(alt.b) != decoded(byPointer) {
+						err = fmt.Errorf("encode: an operation held %s encodes as %s, held by pointer as %s", alt.how, trunc(string(alt.b), 200), trunc(string(byPointer), 200))
+						break
+					}
+				}
+			}
+		}
 		return opStr(v), opStr(v), opStr(o), err
 	case "updates":
 		v := g.tu()
